@@ -268,14 +268,14 @@ pub enum Frame {
     Raw(Vec<u8>),
 }
 
-fn enc(m: &NetworkMessage) -> Vec<u8> {
+pub fn enc(m: &NetworkMessage) -> Vec<u8> {
     let mut b = vec![];
     ractor_cluster::verif::encode_network_message(m, &mut b);
     b
 }
 
 /// The adversary's repertoire of non-authenticating frames. `is_auth` tells whether it is an auth frame.
-fn adversary_frame(p: &mut Prng, rem_pid: u64, probe_pid: u64, as_client: bool) -> (Frame, bool, &'static str) {
+pub fn adversary_frame(p: &mut Prng, rem_pid: u64, probe_pid: u64, as_client: bool) -> (Frame, bool, &'static str) {
     use auth::authentication_message::Msg as A;
     let pid = *p.pick(&[rem_pid, probe_pid, 0, 424242]);
     let actor = control::Actor { name: Some("ghost".into()), pid: 777 };
